@@ -101,6 +101,10 @@ func init() {
 	Checks["C10"] = &Check{Level: "fault_enumeration", Run: CheckF("C10", all), QuickBudget: 240, ThoroughBudget: 1500, ReplayBody: fReplayBody(all)}
 }
 
+func init() {
+	Checks["C20"] = &Check{Level: "model_checking", Run: CheckC20, QuickBudget: 300, ThoroughBudget: 1800}
+}
+
 // kReplay re-executes an operation-history counterexample of the K space.
 func kReplay(prop string) func(v *Viol) []string {
 	return func(v *Viol) []string {
